@@ -9,7 +9,7 @@ A term is a nested tuple:
   ('deref', base) / ('ref', base)   (deref(ref(x)) and ref(deref(x)) are collapsed)
   ('index', base, idx) / ('cindex', base, n, from_end) / ('downcast', base, variant)
   ('call', path, (args...), site)   call result, site = (body path, bb)
-  ('bin', op, a, b) / ('un', op, a) / ('cast', kind, a, to)
+  ('bin', op, a, b, operand_ty) / ('un', op, a) / ('cast', kind, a, to)
   ('agg', kind, (ops...))           aggregate (kind = adt path::variant | 'tuple' | 'array' | 'closure:path')
   ('discr', a)
   ('phi', local, (terms...))        several reaching definitions (flow-insensitive)
@@ -128,7 +128,7 @@ class Slicer:
         if k == "Cast":
             return ("cast", rv["ck"], self.operand(rv["a"], depth, seen), rv["to"])
         if k == "BinaryOp":
-            return ("bin", rv["op"], self.operand(rv["a"], depth, seen), self.operand(rv["b"], depth, seen))
+            return ("bin", rv["op"], self.operand(rv["a"], depth, seen), self.operand(rv["b"], depth, seen), rv.get("ty"))
         if k == "UnaryOp":
             return ("un", rv["op"], self.operand(rv["a"], depth, seen))
         if k == "Discriminant":
